@@ -168,6 +168,7 @@ func (w *World) histCounter(h *spec.History) {
 	dumpPath := filepath.Join(dir, "metrics.pb")
 	metrics.SetMetricsDumpFilePath(dumpPath)
 	dumped := false
+	var dumpTotal int64
 	lastHistLen := 0
 	// Snapshots taken earlier (what a dump or a GetUsers RPC holds while it serialises,
 	// concurrently with accounting) must stay what they were: later increments and
@@ -301,10 +302,45 @@ func (w *World) histCounter(h *spec.History) {
 				w.violate("C19", "dump-failed", "step %d: DumpMetricsNow: %v", i, err)
 			} else {
 				dumped = true
+				dumpTotal = m.Load() // the registered counter (after a "restart" op the model follows an unregistered reload of it)
 			}
 		case "reload":
 			if !dumped {
 				continue
+			}
+			if op.Cut == 0 {
+				// What a restarted server does: the process has never seen this user's metric
+				// group when it loads the dump. The dump is presented under a group name that
+				// was never registered in this process; value and history must come back.
+				if b, err := os.ReadFile(dumpPath); err == nil {
+					all := &metricspb.AllMetrics{}
+					if proto.Unmarshal(b, all) == nil {
+						fresh := fmt.Sprintf("%s-restart-%d", group, i)
+						for _, g := range all.GetGroups() {
+							if g.GetName() == group {
+								g.Name = proto.String(fresh)
+							}
+						}
+						if nb, err := proto.Marshal(all); err == nil && os.WriteFile(dumpPath, nb, 0o660) == nil {
+							lerr := metrics.LoadMetricsFromDump()
+							w.checks.Add(1)
+							w.probe("counter-dump-loaded-by-fresh-process")
+							var got, sum int64 = -1, 0
+							if g := metrics.GetMetricGroupByName(fresh); g != nil {
+								if m, ok := g.GetMetric("bytes"); ok {
+									got = m.Load()
+									for _, e := range metrics.ToMetricPB(m).GetHistory() {
+										sum += e.GetDelta()
+									}
+								}
+							}
+							if lerr != nil || got != dumpTotal || sum != dumpTotal {
+								w.violate("C19", "dump-not-restored-after-restart", "step %d: a process that had never seen the group loaded a dump holding total %d: LoadMetricsFromDump err=%v, counter=%d (-1: not registered), history sums to %d", i, dumpTotal, lerr, got, sum)
+							}
+							os.WriteFile(dumpPath, b, 0o660)
+						}
+					}
+				}
 			}
 			if op.Cut > 0 {
 				if b, err := os.ReadFile(dumpPath); err == nil && op.Cut < len(b) {
